@@ -35,12 +35,12 @@ theorem expandItem_err (ms : List MacroDef) :
       · rename_i e1 he1
         simp only [Except.error.injEq] at h
         subst h
-        obtain ⟨a, ha, hfa⟩ := List.mem_map.1 (collectEager_error he1)
+        obtain ⟨a, ha, hfa⟩ := mapLazy_error he1
         split at hfa
         · rename_i e2 he2
           simp only [Except.error.injEq] at hfa
           subst hfa
-          obtain ⟨x, hx, hfx⟩ := List.mem_map.1 (collectEager_error he2)
+          obtain ⟨x, hx, hfx⟩ := mapLazy_error he2
           exact ih _ _ _ _ hfx
         · exact (flattenP_error hfa).elim
       · cases h
@@ -92,7 +92,7 @@ theorem expandHead_err (ms : List MacroDef) :
               · rename_i e1 he1
                 simp only [Except.error.injEq] at h
                 subst h
-                obtain ⟨x, hx, hfx⟩ := List.mem_map.1 (collectEager_error he1)
+                obtain ⟨x, hx, hfx⟩ := mapLazy_error he1
                 exact ih _ _ hfx
               · exact (flattenP_error h).elim
 
@@ -130,7 +130,7 @@ theorem expandHead_clause (ms : List MacroDef) :
                 rw [flattenP_ok h]
                 intro x hx
                 obtain ⟨l, hl, hxl⟩ := List.mem_flatten.1 hx
-                obtain ⟨y, hy, hfy⟩ := List.mem_map.1 (collectEager_ok_mem hin hl)
+                obtain ⟨y, hy, hfy⟩ := mapLazy_ok_mem hin hl
                 exact ih y l hfy x hxl
 
 theorem expandRule_err {ms : List MacroDef} {r : Rule} {e : Err} (h : expandRule ms r = .error e) :
@@ -146,7 +146,7 @@ theorem expandRule_err {ms : List MacroDef} {r : Rule} {e : Err} (h : expandRule
     · rename_i e1 he1
       simp only [Except.error.injEq] at h
       subst h
-      obtain ⟨x, hx, hfx⟩ := List.mem_map.1 (collectEager_error he1)
+      obtain ⟨x, hx, hfx⟩ := mapLazy_error he1
       exact expandHead_err ms _ _ _ hfx
     · split at h
       · rename_i e1 he1
@@ -172,7 +172,7 @@ theorem expandRule_heads_clause {ms : List MacroDef} {r r' : Rule} (h : expandRu
         rw [flattenP_ok hheads]
         intro x hx
         obtain ⟨l, hl, hxl⟩ := List.mem_flatten.1 hx
-        obtain ⟨y, hy, hfy⟩ := List.mem_map.1 (collectEager_ok_mem hhs hl)
+        obtain ⟨y, hy, hfy⟩ := mapLazy_ok_mem hhs hl
         exact expandHead_clause ms _ y l hfy x hxl
 
 theorem coreHeads_ok : ∀ (hs : List HItem), (∀ x ∈ hs, ∃ rel n, x = .clause rel n) → ∃ c, coreHeads hs = .ok c
@@ -241,8 +241,12 @@ theorem hirEv_err {ds : List Decl} {g : List Var} {ev : Ev} {e : Err} (h : hirEv
       · split at h
         · rename_i e1 he1
           cases h
-          exact getRelation_err he1
-        · cases h
+          exact extendGrounded_err _ _ _ he1
+        · split at h
+          · rename_i e1 he1
+            cases h
+            exact getRelation_err he1
+          · cases h
 
 theorem hirBody_err {ds : List Decl} : ∀ (evs : List Ev) (g : List Var) (e : Err), hirBody ds g evs = .error e → e.hirErr = true
   | [], g, e, h => by simp [hirBody] at h
